@@ -261,6 +261,20 @@ func runC01(c *Ctx) {
 		return
 	}
 	tw.Tuns = StartTunnels(c, tw.Plans)
+	for _, t := range tw.Tuns {
+		for _, h := range t.Hosts {
+			// the remote desktop host may hang up on its own (right after accepting, after its
+			// banner, or with a reset): whatever the client sends afterwards is judged as before
+			switch c.T.Weighted(5, 1, 1, 1) {
+			case 1:
+				h.CloseAfterScript = true
+			case 2:
+				h.ResetAfter = c.T.Choose(len(h.Script) + 1)
+			case 3:
+				h.Script, h.CloseAfterScript = nil, true
+			}
+		}
+	}
 	RunTunnels(c, tw.Tuns, 4000)
 	reach := false
 	var outcome []string
